@@ -25,8 +25,8 @@ import (
 )
 
 // newApp builds an application on a fresh in-memory database (no InitChain yet).
-func newApp(dir string) *app.OsmosisApp {
-	return app.NewOsmosisApp(log.NewNopLogger(), cosmosdb.NewMemDB(), nil, true, map[int64]bool{}, dir, 0, sims.EmptyAppOptions{}, app.EmptyWasmOpts, baseapp.SetChainID(ChainID))
+func newApp(dir string, db cosmosdb.DB) *app.OsmosisApp {
+	return app.NewOsmosisApp(log.NewNopLogger(), db, nil, true, map[int64]bool{}, dir, 0, sims.EmptyAppOptions{}, app.EmptyWasmOpts, baseapp.SetChainID(ChainID))
 }
 
 var genesisBytes []byte
